@@ -7,6 +7,11 @@ capturing fake batch client (no network).  Three correspondences per scenario: (
 _internal_outputs, _dependencies, _valid, _mentioned) and the create_job input/output file lists and parents; (3) job tokens for a
 scripted (adversarial) random generator.
 
+PythonJob scenarios (flags.py): Bash and Python jobs; `call` operations pass resources positionally / by keyword / nested in lists, tuples,
+dicts; results are used raw and via as_str / as_repr / as_json by calls, commands and write_output.  The bookkeeping is compared with
+Model.call_ops (Model.reach over the argument tree); the oracle adds: PythonResult files and their views never share a path, prepared
+arguments = local paths of the very resources passed (and downloaded), the wrapper writes each view to its own path with its formatter.
+
 Two defects (both reproduced on the real code):
   * digit-after-reference  (open finding): `__RESOURCE_FILE__\\d+` is greedy, f"{r}0" is read as another uid.  The model is faithful,
     the property is proved guarded (`_partial`) and refuted unguarded (`_refuted`).
@@ -35,19 +40,28 @@ META = dict(
                'references); the unguarded statement is REFUTED with the witness f"cat {r1}0.txt" (known finding); for ALL sequences of '
                'commands/group declarations of any jobs: every file behind a foreign reference becomes an input of the referring job, is '
                'downloaded from exactly the remote location its producer uploads it to, and the consumer is a child of the producer; '
-               'with the proposed one-line fix, job tokens are pairwise distinct for EVERY output of the random generator, and distinct '
+               'the same for PythonJob.call(f, *args, **kwargs), modelled as call_ops = one mention per resource REACHABLE in the argument '
+               'tree (reach: lists / tuples / dict values at any depth) plus the fresh result, and for as_str / as_repr / as_json files '
+               '(a mention by the producing job): every reachable foreign resource has all its files among the caller\'s inputs, downloaded '
+               'from where the producer uploads them, the caller being a child of the producer (C18_call_argument_becomes_input, '
+               'C18_call_argument_downloaded); with the proposed one-line fix, job tokens are pairwise distinct for EVERY output of the random generator, and distinct '
                '(job, file name) pairs never share a path.',
-    level_note='PARTIAL: cloud copy steps are compared as the (from, to) pairs handed to create_job, not executed; BashJobs only (PythonJob '
-               'argument plumbing not modelled); input-file uploads, external outputs and shlex quoting are checked by the correspondence '
+    level_note='PARTIAL: cloud copy steps are compared as the (from, to) pairs handed to create_job, not executed; PythonJob: the bookkeeping of call() and of the converted views is modelled (call_ops / reach) and compared with '
+               'the real DSL + create_job lists on generated Bash/Python scenarios; RUN-CHECKED ONLY (oracle, not proved): the names/paths of '
+               'PythonResult files and their -str/-repr/-json views are pairwise distinct, the prepared arguments pickled for each call carry '
+               'the local path of exactly the resource passed (and that path is downloaded), the pickled-arguments file is the one downloaded '
+               'and opened, and the generated wrapper writes the result and each view once, to that view\'s path, with the matching formatter '
+               '(python functions are never executed; dill is a recording stub); input-file uploads, external outputs and shlex quoting are checked by the correspondence '
                'and the oracle, not proved; path injectivity assumes the user gives distinct names to distinct files of one job and is '
                'proved for job files (input roots are random and unchecked in the code). The statement about tokens is about the code '
                'WITH fixes/C18.diff applied; on the unfixed tree the check reports the collision as a VIOLATION.',
     partial=True,
 )
 TRUSTED = ['correspondence harness/props/C18.py + harness/impl/c18_dsl_resources.py (ServiceBackend assembled without __init__, fake batch '
-           'client, validate_file/copy_from_dict/get_deploy_config/rich.track replaced, secret_alnum_string scripted)',
+           'client, validate_file/copy_from_dict/get_deploy_config/rich.track replaced, secret_alnum_string scripted; for PythonJobs a fake '
+           'file system and a recording dill.dump)',
            'CPython re / shlex as the semantics of the real interpolation; loader stubs (dill, rich, ...)']
-ASSUMPTIONS = ['BashJobs submitted through ServiceBackend in one run(); commands given as f-strings over resources of the same batch',
+ASSUMPTIONS = ['BashJobs and PythonJobs submitted through ServiceBackend in one run(); commands given as f-strings over resources of the same batch',
                'literal command text contains no "__" (so no accidental uid pattern); identifiers of one job are distinct']
 
 PREFIXES = ['__RESOURCE_FILE__', '__RESOURCE_GROUP__', '__PYTHON_RESULT__', '__JOB__', '__BATCH__']
@@ -169,6 +183,119 @@ def gen_scenario(rng, digit_after_ref=False, dup_tokens=False, errors=False):
             'flags': {'digit_after_ref': digit_after_ref, 'dup_tokens': dup_tokens, 'errors': errors}}
 
 
+# PythonJob scenarios: resources reach a PythonJob through the arguments of j.call(f, *args, **kwargs) (positional, keyword, nested in
+# lists / tuples / dicts), its results are used raw (by other calls) and through as_str() / as_repr() / as_json() (by calls and commands)
+
+def py_wrap(a, path, fill):
+    for depth, k in enumerate(path):
+        if k == 'd':
+            a = ['d', ([['p', fill]] if depth % 2 else []) + [['key', a]]]
+        else:
+            a = [k, ([fill] if depth % 2 == 0 else []) + [a]]
+    return a
+
+
+def gen_py_scenario(rng, views=None, consumer=None):
+    """views/consumer given: the systematic family (one producer result, the consumer uses exactly these views, in this order)."""
+    names = ['prod', 'a', 'b', None, 'x y', 'same', 'same', 'q.z']
+    if views is not None:
+        n = 2
+        kinds = ['py', consumer]
+        topo = [0, 1]
+    else:
+        n = rng.randint(2, 5)
+        kinds = [rng.choice(['py', 'py', 'bash']) for _ in range(n)]
+        if 'py' not in kinds:
+            kinds[rng.randrange(n)] = 'py'
+        topo = list(range(n))
+        rng.shuffle(topo)
+    jobs = [{'name': rng.choice(names), 'kind': k} for k in kinds]
+    toks = [token(rng) for _ in range(n + 6)]
+    inputs = [rng.choice(['/data/in.txt', 'gs://bkt/in file.txt', '/d/x.vcf']) for _ in range(rng.randint(0, 1))]
+    idents = ['out', 'res', 'f1', 'o 2', 'o10']
+    avail = []          # references defined so far (by jobs earlier in the data-flow order)
+    ops = []
+    ncalls = 0
+    results_of = {}
+
+    def filler():
+        return ['v', rng.choice([0, 'x', None, 1.5, True])]
+
+    def pick(for_bash):
+        ref = list(rng.choice(avail))
+        if ref[0] == 'res':
+            ref.append(rng.choice(['str', 'repr', 'json'] if for_bash else ['raw', 'str', 'repr', 'json']))
+        return ref
+
+    for pos, j in enumerate(topo):
+        if kinds[j] == 'bash':
+            own = []
+            planned = [['res', 0, v] for v in views] if views is not None else None
+            for _ in range(rng.randint(1, 2)):
+                segs = [['T', rng.choice(['cat ', 'run ', 'echo x > ', 'true;']) + text(rng, True)]]
+                refs = []
+                if planned:
+                    refs, planned = planned, None
+                else:
+                    for _ in range(rng.randint(0, 3)):
+                        k = rng.random()
+                        if k < 0.4 or not avail:
+                            ref = ['job', j, rng.choice(idents)]
+                            if ref not in own:
+                                own.append(ref)
+                        elif k < 0.9:
+                            ref = pick(True)
+                        elif inputs:
+                            ref = ['input', 0]
+                        else:
+                            continue
+                        refs.append(ref)
+                for ref in refs:
+                    segs.append(['R', ref])
+                    segs.append(['T', (' ' + text(rng, False)) if ref[0] == 'res' or rng.random() < 0.5 else text(rng, False)])
+                ops.append({'op': 'command', 'job': j, 'segs': segs})
+            avail += own
+        else:
+            for c in range(rng.randint(1, 2)):
+                args, kwargs = [filler() for _ in range(rng.randint(0, 2))], []
+                if views is not None and j == 1 and c == 0:
+                    chosen = [['res', 0, v] for v in views]
+                elif views is not None:
+                    chosen = []
+                else:
+                    chosen = [pick(False) for _ in range(rng.choice([0, 1, 1, 2, 3]) if avail else 0)]
+                    if inputs and rng.random() < 0.15:
+                        chosen.append(['input', 0])
+                for ref in chosen:
+                    path = ''.join(rng.choice('ltd') for _ in range(rng.choice([0, 1, 1, 2, 3])))
+                    a = py_wrap(['r', ref], path, filler())
+                    if rng.random() < 0.5:
+                        args.insert(rng.randint(0, len(args)), a)
+                    else:
+                        kwargs.append([f'kw{len(kwargs)}', a])
+                ops.append({'op': 'call', 'job': j, 'args': args, 'kwargs': kwargs, 'fn': 'g' if args and rng.random() < 0.5 else 'f'})
+                avail.append(['res', ncalls])
+                results_of.setdefault(j, []).append(ncalls)
+                ncalls += 1
+    for j in range(n):
+        if kinds[j] == 'py' and rng.random() < 0.3:
+            k = rng.choice(results_of[j])
+            ops.append({'op': 'write_output', 'res': ['res', k, rng.choice(['raw', 'str', 'repr', 'json'])], 'dest': f'gs://out-bucket/py{j}'})
+    return {'token_stream': toks, 'jobs': jobs, 'inputs': inputs, 'input_groups': [], 'ops': ops,
+            'flags': {'py': True, 'digit_after_ref': False, 'dup_tokens': False, 'errors': False}}
+
+
+def py_view_family(rng):
+    """One producer result x every non-empty ordered selection of its as_str / as_repr / as_json views x Bash / Python consumer."""
+    import itertools
+    out = []
+    for k in (1, 2, 3):
+        for vs in itertools.permutations(['str', 'repr', 'json'], k):
+            for consumer in ('bash', 'py'):
+                out.append(gen_py_scenario(rng, views=list(vs), consumer=consumer))
+    return out
+
+
 def corpus_cases():
     import glob
     out = []
@@ -183,6 +310,9 @@ def cases(ctx, scale):
     n = ctx.scale(250, 3000) * scale
     for i in range(n):
         out.append(gen_scenario(rng, digit_after_ref=(i % 7 == 3), dup_tokens=(i % 5 == 1), errors=(i % 4 == 2)))
+    out += py_view_family(rng)
+    for i in range(ctx.scale(100, 1500) * scale):
+        out.append(gen_py_scenario(rng))
     return out
 
 
@@ -262,15 +392,31 @@ def correspond(ctx):
         rid = {u: i for i, u in enumerate(uids)}
         info = listlit([f'R {"None" if e["src"] is None else "(Some %d)" % e["src"]} {nl([rid[m] for m in e["members"]])} '
                         f'{"None" if e["group"] is None else "(Some %d)" % rid[e["group"]]}' for e in r['table']])
-        ops = []
+        ops, pieces = [], []
+
+        def arg_lit(t):
+            if t[0] == 'v':
+                return 'AVal'
+            if t[0] == 'r':
+                return f'(ARes {rid[t[1]]})'
+            if t[0] == 'd':
+                return '(ASeq ' + listlit([arg_lit(x) for _, x in t[1]]) + ')'
+            return '(ASeq ' + listlit([arg_lit(x) for x in t[1]]) + ')'
         for oi, o in enumerate(r['ops']):
+            # as_str()/as_repr()/as_json() evaluated while the operation was being written: a new file of the PRODUCING job
+            ops += [f'Mention {p} {rid[u]}' for p, u in o.get('pre_views', [])]
             if o['op'] == 'declare':
                 ops.append(f'Declare {o["job"]} {rid[o["group"]]}')
             elif o['op'] == 'command' and (ci, oi) in found_refs:
                 ops += [f'Mention {o["job"]} {rid[u]}' for u in found_refs[(ci, oi)] if u in rid]
+            elif o['op'] == 'call' and 'result' in o:
+                # PythonJob.call: Model.call_ops over the argument TREE (Model.reach finds the resources), kwargs after args
+                pieces += [listlit(ops), f'call_ops {o["job"]} {listlit([arg_lit(t) for t in o["args"]] + [arg_lit(t) for _, t in o["kwargs"]])} {rid[o["result"]]}']
+                ops = []
+        pieces.append(listlit(ops))
         n = len(c['jobs'])
         stream = listlit([chars(t) for t in c['token_stream']])
-        exprs2.append(f'(let r := run_ops (info_of {info}) init {listlit(ops)} in (show_state {n} r, show_files {info} {n} r), '
+        exprs2.append(f'(let r := run_ops (info_of {info}) init ({" ++ ".join(pieces)}) in (show_state {n} r, show_files {info} {n} r), '
                       f'alloc_tokens {n} [] {stream})')
         meta2.append((ci, rid))
     vals2 = coq_eval(ctx, HEADER, exprs2, shard=60, label='plumb')
@@ -280,6 +426,8 @@ def correspond(ctx):
         c, r = cs[ci], impl[ci]
         mstate, mfiles, mtokens = v
         distinct.add(json.dumps([c['jobs'], c['ops']]))
+        if (c.get('flags') or {}).get('py'):
+            hist['pythonjob-scenarios'] = hist.get('pythonjob-scenarios', 0) + 1
         if [dec(t) for t in mtokens] != r['tokens']:
             dis.append(Disagreement('Model.alloc_tokens~Batch._unique_job_token', c, [dec(t) for t in mtokens], r['tokens']))
         err = (r['error'] or {}).get('class')
@@ -323,7 +471,10 @@ def correspond(ctx):
             remote = 'gs://verif-bucket/tmp/' + local.rsplit('/', 1)[1]
             m_in = sorted({(remote + paths[inv[f]], local + paths[inv[f]]) for f in mi})
             m_out = sorted({(local + paths[inv[f]], remote + paths[inv[f]]) for f in mo})
-            i_in = sorted(tuple(x) for x in s['input_files'] if x[0].startswith(remote + '/') and '/inputs/' not in x[0])
+            # job files only (the model's job_input_files): input resource files — incl. the pickled function / argument files of a
+            # PythonJob, which live under <local>/inputs/ — are judged by the oracle
+            i_in = sorted(tuple(x) for x in s['input_files']
+                          if x[0].startswith(remote + '/') and '/inputs/' not in x[0] and not x[1].startswith(local + '/inputs/'))
             i_out = sorted(tuple(x) for x in s['output_files'] if x[1].startswith(remote + '/'))
             if (m_in, m_out, sorted(set(mp))) != (i_in, i_out, sorted(set(s['parents']))):
                 dis.append(Disagreement('Model.job_input_files/job_output_files/job_parents~create_job(input_files, output_files, parents)', c,
@@ -344,6 +495,7 @@ def correspond(ctx):
 def judge(c, r):
     fails = []
     table = {e['uid']: e for e in r['table']}
+    view_uids = {u for o in r['ops'] for _, u in o.get('pre_views', [])}
     # (d) distinct resources never share a path
     seen = {}
     for e in r['table']:
@@ -353,6 +505,9 @@ def judge(c, r):
                 if a['src'] is not None and e['src'] is not None and a['src'] != e['src']:
                     fails.append(Failure('job-dir-collision', f'two jobs got the same directory ({r["state"][a["src"]]["dirname"]}): resources '
                                          f'{a["uid"]} and {e["uid"]} share the path {e["path"]}', c, 'distinct paths', e['path']))
+                elif a['uid'] in view_uids or e['uid'] in view_uids or '__PYTHON_RESULT__' in a['uid'] + e['uid']:
+                    fails.append(Failure('python-result-path-collision', f'distinct resources of a PythonJob (a result / its as_str, as_repr, as_json files) '
+                                         f'share the path {e["path"]}', c, 'distinct paths', [a['uid'], e['uid']]))
                 else:
                     fails.append(Failure('path-collision', f'distinct resources share the path {e["path"]}', c, 'distinct paths', [a['uid'], e['uid']]))
                 break
@@ -404,7 +559,98 @@ def judge(c, r):
                 e = table[u]
                 if e['kind'] == 'file' and e['src'] is not None and e['src'] != j and ('${BATCH_TMPDIR}' not in s['command']):
                     fails.append(Failure('command-path', 'command lost its resource paths', c, None, s['command']))
+        fails += judge_pycalls(c, r, sub, by_job, table)
     return fails
+
+
+def judge_pycalls(c, r, sub, by_job, table):
+    """PythonJob: (e1) every resource reachable in the arguments of a call reaches the function as the LOCAL path of that very resource,
+    and that path is one the job downloads (or produces itself); (e2) the pickled arguments are downloaded from where they were written and
+    opened by the wrapper; (e3) the wrapper writes the result and each converted view (json/str/repr) to the path of that view's resource,
+    once, with the matching formatter — so what a consumer of as_str() downloads is what the producer wrote for as_str()."""
+    import re
+    fails = []
+    call_ops = {}
+    for o in r['ops']:
+        if o['op'] == 'call' and 'result' in o:
+            call_ops[o['result']] = o
+    for pc in sub.get('pycalls', []):
+        o = call_ops.get(pc['result'])
+        s = by_job.get(pc['job'])
+        if o is None or s is None:
+            continue
+        j = pc['job']
+        local = s['env']['BATCH_TMPDIR']
+        dl = {dst: src for src, dst in s['input_files']}
+        if pc['prepared'] is None or len(pc['args_files']) != 1 or pc['args_local'] is None:
+            fails.append(Failure('pycall-args-file', f'call {pc["index"]} of job {j}: no unique pickled-arguments file', c, 'one file', pc['args_files']))
+            continue
+        if dl.get(local + pc['args_local']) != pc['args_files'][0] or ("'${BATCH_TMPDIR}" + pc['args_local'] + "'") not in (pc['wrapper'] or ''):
+            fails.append(Failure('pycall-args-file', f'call {pc["index"]} of job {j}: the arguments written to {pc["args_files"][0]} are not the file '
+                                 'the job downloads and its wrapper opens', c, pc['args_files'][0], dl.get(local + pc['args_local'])))
+            continue
+        problems = []
+
+        def walk(t, p):
+            if t[0] == 'v':
+                if p[0] != 'value':
+                    problems.append(('pycall-arg-shape', t, p))
+            elif t[0] == 'r':
+                e = table[t[1]]
+                if e['kind'] == 'group':
+                    want = sorted(local + table[m]['path'] for m in e['members'])
+                    if p[0] != 'dict_path' or sorted(p[1].values()) != want:
+                        problems.append(('pycall-arg-path', want, p))
+                    paths, files = want, e['members']
+                else:
+                    tag = 'py_path' if t[1].startswith('__PYTHON_RESULT__') else 'path'
+                    if p != [tag, local + e['path']]:
+                        problems.append(('pycall-arg-path', [tag, local + e['path']], p))
+                    paths, files = [local + e['path']], [t[1]]
+                for path, f in zip(paths, files):
+                    if table[f]['src'] != j and path not in dl:
+                        problems.append(('pycall-arg-not-downloaded', path, sorted(dl)))
+            elif t[0] in ('l', 't'):
+                if p[0] != {'l': 'list', 't': 'tuple'}[t[0]] or len(p[1]) != len(t[1]):
+                    problems.append(('pycall-arg-shape', t, p))
+                else:
+                    for x, y in zip(t[1], p[1]):
+                        walk(x, y)
+            else:
+                if p[0] != 'dict' or sorted(p[1]) != sorted(k for k, _ in t[1]):
+                    problems.append(('pycall-arg-shape', t, p))
+                else:
+                    for k, x in t[1]:
+                        walk(x, p[1][k])
+        pargs, pkwargs = pc['prepared']
+        if len(pargs) != len(o['args']) or sorted(pkwargs) != sorted(k for k, _ in o['kwargs']):
+            problems.append(('pycall-arg-shape', [o['args'], o['kwargs']], pc['prepared']))
+        else:
+            for t, p in zip(o['args'], pargs):
+                walk(t, p)
+            for k, t in o['kwargs']:
+                walk(t, pkwargs[k])
+        if problems:
+            key, want, got = problems[0]
+            fails.append(Failure(key, f'call {pc["index"]} of job {j}: an argument does not reach the function as the local path of the resource that '
+                                 'was passed / that path is not downloaded', c, want, got))
+            continue
+        # (e3) what the wrapper writes
+        w = pc['wrapper'] or ''
+        writes = sorted((m.group(1), m.group(2)) for m in re.finditer(r"with open\('([^'\n]*)', 'w'\) as out:\s*out\.write\(([\w.]+)\(result\)", w))
+        want = sorted(("${BATCH_TMPDIR}" + _shq(table[u]['path']), {'json': 'json.dumps', 'str': 'str', 'repr': 'repr'}[v])
+                      for v, u in pc['views'].items() if u is not None)
+        raw = re.findall(r"with open\('([^'\n]*)', 'wb'\) as dill_out", w)
+        if writes != want or raw != ["${BATCH_TMPDIR}" + _shq(table[pc['result']]['path'])]:
+            fails.append(Failure('python-result-view-write', f'job {j}: the wrapper of call {pc["index"]} does not write the result and each of its '
+                                 'as_json/as_str/as_repr files exactly once, to the path of that resource, with the matching formatter', c,
+                                 want, {'views': writes, 'result': raw}))
+    return fails
+
+
+def _shq(s):
+    import shlex
+    return shlex.quote(s)
 
 
 def _digit_follows_ref(c, r, o):
